@@ -1,11 +1,59 @@
-"""C28 (BOUNDED stand-in, not a proof): els::util::pos_to_byte_index against the LSP position semantics.
+"""C28: (1) Verus unit on the real text of els::util::pos_to_byte_index: for every document below 1 Gi characters and every position the
+result is the byte offset of the first character at which the LSP position stops (or the end), no panic, no overflow, terminates.
+(2) BOUNDED cross-check of the same function against an independent byte-level LSP reference (Kani) and (3) BOUNDED run-time contract
+on FileCache::incremental_update.
 Kani on the extracted real function; documents of up to 4 bytes (all valid UTF-8 texts of that size, incl. multi-byte and
 astral characters, LF and CRLF), positions with line <= 3 and character <= 4; unwinding bound stated, unwinding assertions on."""
+import os
 import re
 
 from vlib.extract import Source
-from vlib.snippet import Snippet
+from vlib.snippet import Snippet, Undecided
 from vlib.kani_unit import KaniUnit
+from vlib.verus_unit import VerusUnit
+
+HERE = os.path.dirname(os.path.abspath(__file__))
+
+V_SPEC = """requires src@.len() <= 0x3FFF_FFFF,   // the u32 line/column counters cannot overflow below 1 Gi characters
+    ensures
+        // the byte offset of the first character at which the position stops (line reached and column reached or end of line), else the end
+        exists|k: int| 0 <= k <= src@.len() && res == byte_off(src@, k)
+            && (k < src@.len() ==> stops(src@, k, pos.line as int, pos.character as int))
+            && forall|j: int| 0 <= j < k ==> !stops(src@, j, pos.line as int, pos.character as int),
+        res <= byte_off(src@, src@.len() as int),"""
+
+V_LOOP = """invariant
+            verif_k <= verif_ci@.len(), verif_ci@.len() == src@.len(), src@.len() <= 0x3FFF_FFFF,
+            forall|k: int| 0 <= k < verif_ci@.len() ==> (#[trigger] verif_ci@[k]).0 == byte_off(src@, k) && verif_ci@[k].1 == src@[k],
+            line == line_of(src@, verif_k as int), col == col_of(src@, verif_k as int),
+            forall|j: int| 0 <= j < verif_k ==> !stops(src@, j, pos.line as int, pos.character as int),
+        decreases verif_ci@.len() - verif_k,"""
+
+
+def build_verus(run):
+    src = Source(run.repo, UTIL)
+    unit = VerusUnit('C28', run.scratch)
+    unit.raw_file(os.path.join(HERE, 'prelude.rs'))
+    unit.raw("verus! {\n")
+    for probe in (False, True):
+        f = Snippet(src.fn('pos_to_byte_index'), 'vacuity-probe pos_to_byte_index' if probe else 'els::util::pos_to_byte_index')
+        f.rw('R7', r'pub\(crate\)\s+', '', expect='*')
+        f.rw('R11', r'for \((\w+), (\w+)\) in src\.char_indices\(\) \{',
+             r'let verif_ci = w_char_indices(src);\n    let mut verif_k: usize = 0;\n    while verif_k < verif_ci.len() {\n        let (\1, \2) = verif_ci[verif_k]; verif_k = verif_k + 1;', expect=1)
+        f.rw('R4', r'src\[([^\]]+?)\.\.\]\.starts_with\(\'\\n\'\)', r'w_rest_starts_with_nl(src, \1)', expect='*')
+        f.rw('R4', r'\b(\w+)\.len_utf16\(\)', r'w_len_utf16(\1)', expect='*')
+        f.rw('R4', r'\bsrc\.len\(\)', 'w_str_len(src)', expect='*')
+        if probe:
+            f.rename_fn('pos_to_byte_index__vacuity_probe')
+            run.extra.setdefault('vacuity_probe_labels', []).append(f.label)
+        f.contract(V_SPEC.split('ensures')[0] + 'ensures false,' if probe else V_SPEC)
+        f.loop_spec(0, V_LOOP)
+        f.insert_at(r'verif_k = verif_k \+ 1;', "        proof { lemma_bounds(src@, verif_k as int - 1); lemma_bounds(src@, verif_k as int); lemma_bounds(src@, src@.len() as int); lemma_off_mono(src@, verif_k as int, src@.len() as int); }", where='after')
+        f.body_prologue("proof { lemma_bounds(src@, src@.len() as int); }")
+        unit.add(f)
+    unit.raw("} // verus!\n")
+    run.sample({"function": "els::util::pos_to_byte_index", "ensures": "for every document (< 1 Gi chars) and position: the byte offset of the first character k with line_of(k) == line and (col_of(k) >= character in UTF-16 units, or k is the end of its line - LF or the CR of a CRLF), else the end of the document; always a character boundary <= len; the slice src[index+1..] cannot panic; counters do not overflow; terminates"})
+    return unit
 
 UTIL = 'crates/els/util.rs'
 MAXLEN = 4
@@ -73,12 +121,15 @@ def build(run):
 def run(run, replay=None):
     from units.C28 import cex as _cex
     run.fallbacks.append(("pos_to_byte_index", lambda: _cex.find(run, {})))
+    vunit = build_verus(run)
+    vres = vunit.run(rlimit=60)
+    run.add_verus(vunit, vres, cex_finder=lambda f: _cex.find(run, f), expect_fail=tuple(run.extra.get('vacuity_probe_labels', ())))
     unit = build(run)
     h = 'h_pos_to_byte_index'
     res = unit.run([h], jobs=1, timeout_s=1500 if run.tier != 'thorough' else 6000)
     run.note_functions(unit.snippets)
     r = res[h]
-    run.level = 'other'
+    run.level = 'proof'
     bound = "documents of at most %d bytes (every valid UTF-8 text of that size), line <= 3, character <= 4, unwind %d with unwinding assertions" % (MAXLEN, MAXLEN + 3)
     run.bounded_note = bound
     label = "pos_to_byte_index == LSP position semantics [BOUNDED: %s]" % bound
@@ -87,7 +138,9 @@ def run(run, replay=None):
         if bad_cover or not r.covers:
             run.undecided.append("kani %s: vacuity guard: cover %r" % (h, bad_cover))
         else:
-            run.add_obligation(label, 'kani-bounded', True, time_s=r.time_s, cmd=r.cmd)
+            run.solver_time_s += r.time_s
+            run.cmds.append(r.cmd)
+            run.extra.setdefault("bounded_stand_ins(not counted as proved)", []).append({"harness": h, "what": label, "bound": bound, "status": "passed"})
             run.sample({"obligation": "pos_to_byte_index(src, pos)", "ensures": "<= src.len(), on a char boundary, == the index denoted by the LSP position (UTF-16 units; past end of line -> end of line)", "bound": bound})
     elif r.status == 'FAILURE':
         descs = sorted(set(d for (d, _) in r.failed))
@@ -122,9 +175,11 @@ def run(run, replay=None):
                                 "input": js["violation"].split(': server copy')[0].split(': the server panics')[0], "real_result": js["violation"], "oracle": "LSP: each change of a notification applies to the document as modified by the previous ones; UTF-16 columns; past end of line clamps",
                                 "verdict": "the server's copy of the document differs from the client's (or the server panics)", "replay_cmd": "%s %d" % (binary, n)})
     else:
-        run.add_obligation("incremental_update: server copy == client copy [BOUNDED: %s]" % b2, 'runtime-contract', True, cmd="%s %d" % (binary, n))
+        run.cmds.append("%s %d" % (binary, n))
+        run.extra.setdefault("bounded_stand_ins(not counted as proved)", []).append({"what": "FileCache::incremental_update: server copy == client copy (run-time-checked contract through the guarded hook)", "bound": b2, "status": "passed"})
     run.extra.update({"evaluations": js["notifications"], "distinct_nontrivial": js["distinct_results"],
                       "rule": "run-time-checked contract on FileCache::incremental_update: " + b2 + "; distinct_nontrivial = distinct resulting documents",
                       "samples_notifications": js["samples"]})
     run.bounded_note = bound + " || " + b2
-    run.assumptions.append("BOUNDED: only documents up to the stated size; histories of several notifications, full-document sync, and the rest of the server loop are not carried.")
+    run.assumptions.append("pos_to_byte_index (proved): str::char_indices, str::len, str slicing + starts_with and char::len_utf16 carry assumed std contracts over the characters of the document (Verus has no byte-level str reasoning); documents below 2^30 characters. The same function is cross-checked, BOUNDED, by Kani against an independent byte-level LSP reference (which exercises the real UTF-8 decoding).")
+    run.assumptions.append("FileCache::incremental_update: BOUNDED run-time-checked contract only (documents up to the stated size, one notification); histories of several notifications, full-document sync, String::replace_range and the rest of the server loop are not carried by any proof.")
